@@ -13,6 +13,7 @@ pub const STRAY: &[&[u8]] = &[
     b"\x1b]8;;\x1b\\", b"\x1b]0;title\x07", b"\x1b]8;;unterminated", b"\x1b[?25l", b"\x1b[ q", b"\x1b[1 q\xc3\xa9", b"\x1b[0K", b"\x1b[2J", b"\x1bP+q\x1b\\",
     b"\x1b(B", b"\x9b31m", b"\x1b[;;;m", b"\x1b[999999999999m", b"\x1b[38;5m", b"\x1b[38;2;1m", b"\x1b[48;5;300m", b"\r", b"\r\n", b"\0", b"\x07", b"\x08",
     b"\xff", b"\xc3", b"\xe2\x82", b"\xf0\x9f\x98", b"\xed\xa0\x80", b"\xef\xbb\xbf", b"\x1b[1m\xe4\xb8\x96\x1b[m",
+    b"\x1b[38:2:1:2:3m", b"\x1b[38:2::1:2:3m", b"\x1b[48:5:17m", b"\x1b[38:2:1m", b"\x1b[38:2m", b"\x1b[48:2:1:2m", b"\x1b[38:5m", b"\x1b[38:m", b"\x1b[4:3m", b"\x1b[58:2::1:2:3m", b"\x1b[38;2;1;2m", b"\x1b[48;5m",
 ];
 
 pub fn mutate(t: &mut Tape, input: Vec<u8>) -> (Vec<u8>, &'static str) {
